@@ -212,6 +212,16 @@ Section C01.
   Lemma is_none_eq0 x : is_none x = true -> x = VNone.
   Proof. destruct x; try discriminate. reflexivity. Qed.
 
+  (* Literal: what is found is the value itself *)
+  Lemma lit_find_same ls v w : lit_find ls v = Ok w -> v = w.
+  Proof.
+    unfold lit_find. destruct (find (exact_eq v) ls) as [l|] eqn:Ef; intros H; [|discriminate H]. inversion H; subst w.
+    apply find_some in Ef. destruct Ef as [_ He]. destruct v, l; cbn in He; try discriminate He; try reflexivity.
+    - apply Bool.eqb_prop in He. subst. reflexivity.
+    - apply Z.eqb_eq in He. subst. reflexivity.
+    - apply String.eqb_eq in He. subst. reflexivity.
+  Qed.
+
   (* a non-None conforming value never encodes to None (needed under Optional) *)
   Lemma enc_not_none v : forall t w,
     conf_ord E v t = true -> lossless t = true -> is_none v = false -> atom_ok v = true ->
@@ -252,6 +262,7 @@ Section C01.
       { destruct (is_chain b); destruct t; try discriminate Hs; exact I. }
       rewrite conf_unfold in HC. rewrite ref_enc_unfold in HE.
       destruct t; try contradiction; destruct inner; try discriminate HC; destruct (mapM _ _); inversion HE; reflexivity.
+    - (* literal *) rewrite <- (lit_find_same _ _ _ HE). exact HN.
   Qed.
 
   Lemma omapM_nt_eq {B} (g: sfield -> option B) (q: sfield -> B -> bool) fds (l cs: list B) :
@@ -285,7 +296,7 @@ Section C01.
   Lemma const_ty_conf_eq_n n : forall t c x, const_ty_n E n t = Some c -> conf_ord E x t = true -> x = c.
   Proof.
     induction n as [|n IHn].
-    all: induction t as [ | | | | | | m' | k' | e' | t' IHt | fr' t' IHt | t' IHt | ts IHts | pre IHpre mid IHmid IHmide post IHpost | kt IHkt vt IHvt | t' IHt | c' | c' | c' | t' IHt | kt IHkt vt IHvt | bx t' IHt ]
+    all: induction t as [ | | | | | | m' | k' | e' | t' IHt | fr' t' IHt | t' IHt | ts IHts | pre IHpre mid IHmid IHmide post IHpost | kt IHkt vt IHvt | t' IHt | c' | c' | c' | t' IHt | kt IHkt vt IHvt | bx t' IHt | ls ]
       using sty_ind'; intros c x Hc HC; rewrite const_ty_n_unfold in Hc; try discriminate Hc.
     all: try solve [
       destruct (omapM (const_ty_n E _) pre) as [a|] eqn:Ea; [|discriminate Hc];
@@ -607,7 +618,7 @@ Section C01.
     - (* the canonical empty ChainMap: wire [{}] *)
       unfold chain_empty in Ece. apply andb_prop in Ece. destruct Ece as [Hch Hin]. rewrite Hch in Hs.
       destruct inner as [ | | | | | | l | | | | | | | | ]; try discriminate Hin. destruct l; [|discriminate Hin].
-      inversion HE; subst w0. destruct t' as [ | | | | | | | | | | | | | | | | | | | t'' | | ]; try discriminate Hs.
+      inversion HE; subst w0. destruct t' as [ | | | | | | | | | | | | | | | | | | | t'' | | | ]; try discriminate Hs.
       destruct t''; try discriminate Hs.
       rewrite (ref_dec_unfold E P true). cbn [mapM]. rewrite (ref_dec_unfold E P true). cbn [mapM bind dict_of_pairs fold_left].
       destruct bx; try discriminate Hch. reflexivity.
@@ -622,7 +633,7 @@ Section C01.
   Proof.
     induction v as [ | b | z | f | s | m b | l IHl | l IHl | fr l IHl | kvs IHk | c fs IHf | e m | k w | c l IHl | tg ]
       using pv_rect'; unfold rt_ok.
-    all: intros t; induction t as [ | | | | | | m' | k' | e' | t' IHt | fr' t' IHt | t' IHt | ts | pre mid IHmid post | kt IHkt vt IHvt | t' IHt | c' | c' | c' | t' IHt | kt IHkt vt IHvt | bx t' IHt ];
+    all: intros t; induction t as [ | | | | | | m' | k' | e' | t' IHt | fr' t' IHt | t' IHt | ts | pre mid IHmid post | kt IHkt vt IHvt | t' IHt | c' | c' | c' | t' IHt | kt IHkt vt IHvt | bx t' IHt | ls ];
       intros w0 HC HL HV HE; try (solve [apply (rt_tupleu _ _ _ _ _ IHl HC HL HV HE)]);
       rewrite conf_unfold in HC; try discriminate HC;
       rewrite ref_enc_unfold in HE;
@@ -640,6 +651,8 @@ Section C01.
     all: try solve [
       cbn [lossless] in HL; destruct (rt_dict kvs kt vt w0 IHk HC HL HV HE) as [Hd [kvs' Hw]]; subst w0;
       rewrite (ref_dec_unfold E P true); exact Hd ].
+    (* literals *)
+    all: try solve [ pose proof (lit_find_same _ _ _ HE) as Hsame; rewrite <- Hsame in *; rewrite (ref_dec_unfold E P true); exact HE ].
     (* boxed collections *)
     all: try solve [
       destruct fs as [|[n inner] [|]]; try discriminate HC;
@@ -841,7 +854,7 @@ Section Total.
   Proof.
     induction v as [ | b | z | f | s | m b | l IHl | l IHl | fr l IHl | kvs IHk | c fs IHf | e m | k w | c l IHl | tg ]
       using pv_rect'; unfold enc_total_ok.
-    all: intros t; induction t as [ | | | | | | m' | k' | e' | t' IHt | fr' t' IHt | t' IHt | ts | pre mid IHmid post | kt IHkt vt IHvt | t' IHt | c' | c' | c' | t' IHt | kt IHkt vt IHvt | bx t' IHt ];
+    all: intros t; induction t as [ | | | | | | m' | k' | e' | t' IHt | fr' t' IHt | t' IHt | ts | pre mid IHmid post | kt IHkt vt IHvt | t' IHt | c' | c' | c' | t' IHt | kt IHkt vt IHvt | bx t' IHt | ls ];
       intros HC HV; try (solve [apply (total_tupleu _ _ _ _ IHl HC HV)]);
       rewrite conf_unfold in HC; try discriminate HC;
       rewrite ref_enc_unfold; try (eexists; reflexivity).
@@ -865,6 +878,10 @@ Section Total.
         inversion IHk as [|? ? [Qk Qx] Qkvs]; subst; cbn [fst snd] in Qk, Qx;
         destruct (Qk kt Ck Vk) as [k1 Ek]; destruct (Qx vt Cx Vx) as [x1 Ex]; destruct (IHkvs Qkvs Cl Vl) as [ys Eys];
         exists ((k1, x1) :: ys); cbn [mapM]; rewrite Ek; cbn [bind]; rewrite Ex; cbn [bind]; rewrite Eys; reflexivity ] ].
+    (* literals *)
+    all: try solve [ unfold lit_find; apply existsb_exists in HC; destruct HC as [lit0 [Hin He]];
+                     destruct (find (exact_eq _) ls) as [lit1|] eqn:Ef; [eexists; reflexivity|];
+                     rewrite (find_none _ _ Ef lit0 Hin) in He; discriminate He ].
     (* boxed collections *)
     all: try solve [
       destruct fs as [|[n inner] [|]]; try discriminate HC;
